@@ -146,6 +146,7 @@ func initPlugins() {
 	scenarioimport.Import(vsFs)
 	pluginconfig.AddHooks()
 	initResolvers()
+	initProviderPlugins()
 }
 
 func yamlList(ss []string) string {
@@ -318,6 +319,17 @@ func oracleAll(queries []string) []string {
 		}
 		if len(f) == 2 && f[0] == "jany" {
 			out[i] = oracleJSONAny(vh.UnHex(f[1]))
+			continue
+		}
+		if len(f) == 2 && (f[0] == "optv" || f[0] == "hcl" || f[0] == "yaml") {
+			switch f[0] {
+			case "optv":
+				out[i] = oracleOptv(vh.UnHex(f[1]))
+			case "hcl":
+				out[i] = oracleHCL(vh.UnHex(f[1]))
+			default:
+				out[i] = oracleYAML(vh.UnHex(f[1]))
+			}
 			continue
 		}
 		rest = append(rest, q)
